@@ -43,14 +43,16 @@ type Case struct {
 	Prior string `json:"reached_by_update_from,omitempty"`
 }
 
-var priors = []string{"on_error-flipped", "backtracking-flipped", "last-step-dropped", "finalizer-appended"}
+var priors = []string{"on_error-flipped", "backtracking-flipped", "last-step-dropped", "finalizer-appended",
+	// the same, and the update also appends a further rule to the end of the rule set
+	"on_error-flipped+rule-appended", "last-step-dropped+rule-appended"}
 
 // prior returns the version the update starts from.
 func (cs *Case) prior() (Case, bool) {
 	pc := *cs
 	pc.Prior = ""
 
-	switch cs.Prior {
+	switch strings.TrimSuffix(cs.Prior, "+rule-appended") {
 	case "on_error-flipped":
 		pc.OnError = !cs.OnError
 	case "backtracking-flipped":
@@ -327,6 +329,11 @@ func judge(c *engine.Ctx, cs *Case) {
 	rs.Source = "c14"
 	rs.Rules = []rulecfg.Rule{cs.rule("r", "/r", nil)}
 
+	if strings.HasSuffix(cs.Prior, "+rule-appended") {
+		extra := Case{Steps: "a", ForwardTo: cs.ForwardTo, BT: "unset", BadStep: -1}
+		rs.Rules = append(rs.Rules, extra.rule("appended", "/appended", nil))
+	}
+
 	reachedByUpdate := false
 
 	if cs.Prior != "" {
@@ -426,7 +433,11 @@ func judge(c *engine.Ctx, cs *Case) {
 	rs2 := &rulecfg.RuleSet{Version: rulecfg.CurrentRuleSetVersion, Name: "c14bt"}
 	rs2.Source = "c14bt"
 	less := Case{Steps: "a", ForwardTo: cs.ForwardTo, BT: "false", BadStep: -1}
-	rs2.Rules = []rulecfg.Rule{cs.rule("specific", "/bt/:x", []string{"POST"}), less.rule("less-specific", "/bt/**", nil)}
+	// the rule below the specific one is listed first: the node of the specific expression already exists (as an inner
+	// node) when the specific rule is added
+	rs2.Rules = []rulecfg.Rule{
+		less.rule("deeper", "/bt/:x/deeper", nil), cs.rule("specific", "/bt/:x", []string{"POST"}), less.rule("less-specific", "/bt/**", nil),
+	}
 
 	if err := proc.OnCreated(rs2); err != nil {
 		c.Violation("backtracking-fixture-rejected", fmt.Sprintf("%+v: %v", *cs, err), cs)
@@ -555,7 +566,7 @@ func Check() *engine.Check {
 			"authenticator/authorizer/contextualizer/finalizer) x on_error absent/present x backtracking_enabled unset/true/false x operation mode " +
 			"x forward_to absent/present, plus every single step referencing an unknown mechanism or carrying a rejected override and conditional " +
 			"steps; every accepted rule also reached by an update from a version differing in one aspect (on_error, backtracking, last step " +
-			"dropped, finalizer appended); through the real rule factory, rule-set processor, repository and executor with a scripted mechanism factory recording the " +
+			"dropped, finalizer appended; also with a further rule appended by the same update); through the real rule factory, rule-set processor, repository and executor with a scripted mechanism factory recording the " +
 			"executed mechanisms; oracle: acceptance predicate of the statement, reference effective pipeline (three request modes: first " +
 			"authenticator succeeds, authenticators fall through, authentication fails) and behavioural backtracking test. Real part: every ordered " +
 			"pair (thorough: triple) of a menu of 14 rules over REAL mechanisms (production mechanism factory, CEL conditions; valid and malformed " +
